@@ -2,7 +2,12 @@
 
 stdin : {"seg":  [[8 hex floats px py pz pd dx dy dz dd], ...],
          "cell": [{"chain": [{"prox": [4 hex]|null, "dist": [4 hex], "fract": hex}, ...],   # head = the queried segment,
-                   "ids": [int,...], "order": [int,...], "extra": int}, ...]}                # then its ancestors
+                   "ids": [int,...], "order": [int,...], "extra": int}, ...],                # then its ancestors
+         "hist": [{"cell": <as above>, "steps": [{"op": translate|scale|set_fract|move_distal|move_proximal|set_diameter|
+                   replace_distal|replace_proximal|drop_proximal|reparent|swap_ends|requery, ...}]}],   # applied IN PLACE
+         "seghist": [{"coords": [8 hex], "steps": [{"end": "p"|"d", "attr": x|y|z|diameter, "v": hex}]}]}
+  hist -> per history, per state (initial, after each step): {"same": answers of the same Cell object for every id,
+          "fresh": answers of a freshly built Cell with the same current data, "chains": the current data}
 stdout (last line): {"seg": [[length, volume, surface_area, distance_to], ...],
                      "cell": [[actual_proximal(4 hex)|"EXC:..", length, surface_area, volume], ...]}
 each value a hex float or "EXC:<exception class>".
@@ -17,7 +22,7 @@ def fh(s):
     return float.fromhex(s)
 
 
-def out(f):
+def out_(f):
     try:
         v = f()
     except RecursionError:
@@ -38,10 +43,10 @@ def point(c):
 def do_seg(c):
     p, d = point(c[0:4]), point(c[4:8])
     s = neuroml.Segment(id=0, proximal=p, distal=d)
-    return [out(lambda: s.length), out(lambda: s.volume), out(lambda: s.surface_area), out(lambda: p.distance_to(d))]
+    return [out_(lambda: s.length), out_(lambda: s.volume), out_(lambda: s.surface_area), out_(lambda: p.distance_to(d))]
 
 
-def do_cell(c):
+def build_cell(c):
     chain, ids = c["chain"], c["ids"]
     segs = []
     for i, sg in enumerate(chain):
@@ -58,8 +63,10 @@ def do_cell(c):
                                     distal=neuroml.Point3DWithDiam(x=k, y=2, z=2, diameter=1)))
     order = c.get("order") or list(range(len(segs)))
     segs = [segs[i] for i in order if i < len(segs)] + [s for i, s in enumerate(segs) if i not in order]
-    cell = neuroml.Cell(id="c", morphology=neuroml.Morphology(id="m", segments=segs))
-    sid = ids[0]
+    return neuroml.Cell(id="c", morphology=neuroml.Morphology(id="m", segments=segs))
+
+
+def query(cell, sid):
     try:
         ap = cell.get_actual_proximal(sid)
         a = [float(ap.x).hex(), float(ap.y).hex(), float(ap.z).hex(), float(ap.diameter).hex()]
@@ -67,13 +74,139 @@ def do_cell(c):
         a = "EXC:RecursionError"
     except Exception as e:  # noqa: BLE001
         a = "EXC:" + type(e).__name__
-    return [a, out(lambda: cell.get_segment_length(sid)), out(lambda: cell.get_segment_surface_area(sid)),
-            out(lambda: cell.get_segment_volume(sid))]
+    return [a, out_(lambda: cell.get_segment_length(sid)), out_(lambda: cell.get_segment_surface_area(sid)),
+            out_(lambda: cell.get_segment_volume(sid))]
+
+
+def do_cell(c):
+    return query(build_cell(c), c["ids"][0])
+
+
+# ------------------------------------------------------------------ histories: query -> modify the SAME object in place -> query
+def pt_hex(p):
+    return None if p is None else [float(p.x).hex(), float(p.y).hex(), float(p.z).hex(), float(p.diameter).hex()]
+
+
+def seg_by_id(cell, sid):
+    for s in cell.morphology.segments:   # read the raw data, not through the library's lookup helpers
+        if s.id == sid:
+            return s
+    return None
+
+
+def chain_of(cell, sid):
+    """the current data of segment sid and its ancestors, read straight off the attributes"""
+    out, seen = [], set()
+    while sid is not None and sid not in seen:
+        seen.add(sid)
+        s = seg_by_id(cell, sid)
+        if s is None:
+            break
+        par = s.parent
+        out.append({"prox": pt_hex(s.proximal), "dist": pt_hex(s.distal),
+                    "fract": float(par.fraction_along).hex() if par is not None else (0.0).hex()})
+        sid = par.segments if par is not None else None
+    return out
+
+
+def rebuild(cell):
+    """a fresh Cell (new Segment / Point / SegmentParent objects) with the same current data"""
+    segs = []
+    for s in cell.morphology.segments:
+        kw = {"id": s.id, "distal": neuroml.Point3DWithDiam(x=s.distal.x, y=s.distal.y, z=s.distal.z, diameter=s.distal.diameter)}
+        if s.proximal is not None:
+            kw["proximal"] = neuroml.Point3DWithDiam(x=s.proximal.x, y=s.proximal.y, z=s.proximal.z, diameter=s.proximal.diameter)
+        if s.parent is not None:
+            kw["parent"] = neuroml.SegmentParent(segments=s.parent.segments, fraction_along=s.parent.fraction_along)
+        segs.append(neuroml.Segment(**kw))
+    return neuroml.Cell(id="c", morphology=neuroml.Morphology(id="m", segments=segs))
+
+
+def all_points(cell):
+    for s in cell.morphology.segments:
+        if s.proximal is not None:
+            yield s.proximal
+        yield s.distal
+
+
+def apply_step(cell, st):
+    op = st["op"]
+    if op == "translate":
+        t = [fh(v) for v in st["t"]]
+        for p in all_points(cell):
+            p.x, p.y, p.z = p.x + t[0], p.y + t[1], p.z + t[2]
+    elif op == "scale":
+        k = fh(st["k"])
+        for p in all_points(cell):
+            p.x, p.y, p.z, p.diameter = p.x * k, p.y * k, p.z * k, p.diameter * k
+    elif op == "set_fract":
+        seg_by_id(cell, st["seg"]).parent.fraction_along = fh(st["f"])
+    elif op == "move_distal":
+        p = seg_by_id(cell, st["seg"]).distal
+        d = [fh(v) for v in st["d"]]
+        p.x, p.y, p.z = p.x + d[0], p.y + d[1], p.z + d[2]
+    elif op == "move_proximal":
+        p = seg_by_id(cell, st["seg"]).proximal
+        if p is not None:   # an earlier step may have dropped it: then nothing to move
+            d = [fh(v) for v in st["d"]]
+            p.x, p.y, p.z = p.x + d[0], p.y + d[1], p.z + d[2]
+    elif op == "set_diameter":
+        seg_by_id(cell, st["seg"]).distal.diameter = fh(st["v"])
+    elif op == "replace_distal":
+        seg_by_id(cell, st["seg"]).distal = point(st["pt"])
+    elif op == "replace_proximal":
+        seg_by_id(cell, st["seg"]).proximal = point(st["pt"])
+    elif op == "drop_proximal":
+        seg_by_id(cell, st["seg"]).proximal = None
+    elif op == "reparent":
+        seg_by_id(cell, st["seg"]).parent = neuroml.SegmentParent(segments=st["to"], fraction_along=fh(st["f"]))
+    elif op == "swap_ends":
+        s = seg_by_id(cell, st["seg"])
+        if s.proximal is not None:
+            s.proximal, s.distal = s.distal, s.proximal
+    elif op == "requery":
+        pass
+    else:
+        raise ValueError(op)
+
+
+def do_hist(h):
+    cell = build_cell(h["cell"])
+    ids = h["cell"]["ids"]
+    out = []
+    for st in [{"op": "initial"}] + h["steps"]:
+        if st["op"] != "initial":
+            apply_step(cell, st)
+        same = [query(cell, sid) for sid in ids]
+        fresh_cell = rebuild(cell)
+        fresh = [query(fresh_cell, sid) for sid in ids]
+        out.append({"same": same, "fresh": fresh, "chains": [chain_of(cell, sid) for sid in ids]})
+    return out
+
+
+def do_seghist(h):
+    """the Segment properties on one object: query, edit a coordinate / diameter in place, query again"""
+    c = h["coords"]
+    p, d = point(c[0:4]), point(c[4:8])
+    s = neuroml.Segment(id=0, proximal=p, distal=d)
+    out = []
+    for st in [None] + h["steps"]:
+        if st is not None:
+            tgt = p if st["end"] == "p" else d
+            setattr(tgt, st["attr"], fh(st["v"]))
+        fresh = neuroml.Segment(id=0, proximal=neuroml.Point3DWithDiam(x=p.x, y=p.y, z=p.z, diameter=p.diameter),
+                                distal=neuroml.Point3DWithDiam(x=d.x, y=d.y, z=d.z, diameter=d.diameter))
+        out.append({"same": [out_(lambda: s.length), out_(lambda: s.volume), out_(lambda: s.surface_area), out_(lambda: p.distance_to(d))],
+                    "fresh": [out_(lambda: fresh.length), out_(lambda: fresh.volume), out_(lambda: fresh.surface_area),
+                              out_(lambda: fresh.proximal.distance_to(fresh.distal))],
+                    "coords": pt_hex(p) + pt_hex(d)})
+    return out
 
 
 def main():
     req = json.loads(sys.stdin.read() or "{}")
-    res = {"seg": [do_seg(c) for c in req.get("seg", [])], "cell": [do_cell(c) for c in req.get("cell", [])]}
+    res = {"seg": [do_seg(c) for c in req.get("seg", [])], "cell": [do_cell(c) for c in req.get("cell", [])],
+           "hist": [do_hist(h) for h in req.get("hist", [])], "seghist": [do_seghist(h) for h in req.get("seghist", [])]}
     print(json.dumps(res))
 
 
